@@ -292,7 +292,14 @@ def run_case(case, obs):
     for invocation in range(case.get("invocations", 1)):
         delegate.calls = []
         before = len(obs.violations)
-        _one_invocation(case, obs, loop, retrier, delegate, es, params)
+        case_k, params_k = case, params
+        if invocation > 0 and case.get("later_without_rus"):
+            # another task of the same operation type: the same wrapper, other params - here without the retry-until-success option
+            case_k = dict(case, params={k: v for k, v in case["params"].items() if k != "retry-until-success"})
+            params_k = dict(case_k["params"])
+            delegate.params_obj = params_k
+            obs.cls("later-invocation-with-other-params")
+        _one_invocation(case_k, obs, loop, retrier, delegate, es, params_k)
         if invocation > 0:
             obs.cls("invoked-again-with-same-params-object")
             if len(obs.violations) > before:
@@ -514,6 +521,8 @@ def _case(draw):
     case = {"outcomes": outcomes, "params": params, "ctor_rus": bool(ctor_rus), "svc": svc}
     if draw(st.integers(0, 3)) == 0:
         case["invocations"] = draw(st.sampled_from([2, 2, 3]))
+        if "retry-until-success" in params and draw(st.booleans()):
+            case["later_without_rus"] = True
     elif draw(st.integers(0, 3)) == 0:
         # a second client of the same worker runs the operation through the same Retry object while the first is still at it
         nb = draw(st.integers(0, 6))
